@@ -37,6 +37,9 @@ checks = {
  "C06": dict(cat="exploration", engine="seq", tech=SEQ + " (all ordered pairs of key tuples over a 10-value alphabet incl. empty string and separators)", ref="DESIGN.md §5 C06",
    text="real byKeySet orchestrator with real pipelines and hybrid buffers on a scratch root and a capturing consumer; all tuples over {'', a, b, ab, ',', 'a,', '.', '/', NUL, e-acute} for 1-2 key fields (quick) / 3 (thorough); for every ordered pair of distinct tuples one record each, both arrival orders, one and two connections, 4 tag templates; then Shutdown and a second orchestrator through StartOrchestrator on the same root; oracles: different pipelines/chunks/queue directories, tag = reference expansion of the template on the record's own tuple, queued chunks reattached at startup to the pipeline of the tuple that produced them",
    note="buffer channel size and message limit scaled down for allocation cost only; tags need not be injective (compared with the reference expander)"),
+ "C08": dict(cat="exploration", engine="seq", tech=SEQ + " (all 0-,1-,2-cut fragmentations x all flush placements against a line-based reference framer)", ref="DESIGN.md §5 C08, Appendix A.1",
+   text="real tcplistener.multiLineReader with a scripted read function: every sequence of 2-3 (thorough 2-4) records over six kinds (single line, 1-2 continuation lines, garbage shaped like a head prefix, empty lines) x ALL 0/1/2-cut splits (3-cut for the shortest streams) x ALL 2^(#fragments) flush placements, at scaled sizes (limit 64 / buffer 192) and the shipped sizes, plus over-limit streams; oracle: without flushes identical records for every fragmentation; single-line streams identical under every flush placement; every head exactly once and in order; continuation attached unless a flush fell between",
+   note="runConnection's deadline logic itself is not driven (flushes are placed between reads, which is all it can do); over-limit records under the weaker byte-conservation oracle as documented"),
  "C09": dict(cat="exploration", engine="seq", tech=SEQ, ref="DESIGN.md §5 C09, Appendix A.2",
    text="all PRI 0..191 x level mappings x schemas, out-of-range PRI menu, full product of header token menus (8^6 quick / 12^6 thorough), message bodies around the message and record limits x rune classes, histories of mixed lines; oracle: reference parser, facility/level mapping, truncation prefix/UTF-8/overflow count, exact passed+dropped accounting (count and bytes)",
    note="limits scaled down in one variant and shipped limits in another; see harness/seq_parse/README.md for tolerances"),
